@@ -858,6 +858,9 @@ func genC18(rng *rand.Rand, n int, thorough bool, emit func(string)) {
 	for i := 0; i < longCount(thorough); i++ {
 		emit("FINITES " + genLongFinite(rng, thorough)) // (a ValidReplayer's slot report would be as long as its buffer)
 	}
+	// … but one ValidReplayer history with thousands of entries expiring together, collected by the next Put, is run:
+	// a collection releases everything that has expired, however much that is
+	emit(fmt.Sprintf("VALIDS 1000 d 1 N:_:%d;T:2000;P:_:~;P:_:~", 4100+rng.Intn(2000)))
 	for i := 0; i < n; i++ {
 		fin := (thorough && rng.Intn(100) < 5) || (!thorough && i < 120) // (quick: the first 120, with finalizers)
 		if rng.Intn(2) == 0 {
